@@ -1,4 +1,493 @@
 /- Helper lemmas about RV.Model.Codec used by RV.Props.C10. -/
 import RV.Model.Codec
 namespace RV
+
+/-! ### beNat / beBytes -/
+
+theorem beNat_beBytes_mod (n v : Nat) : beNat (beBytes n v) = v % 256 ^ n := by
+  induction n with
+  | zero => simp [beBytes, beNat, Nat.mod_one]
+  | succ n ih =>
+    simp only [beBytes, beNat, beBytes_length, ih, UInt8.toNat_ofNat']
+    have h1 : v / 256 ^ n % 256 % 2 ^ 8 = v / 256 ^ n % 256 := by
+      rw [show (2:Nat)^8 = 256 from rfl, Nat.mod_mod]
+    rw [h1, Nat.pow_succ, Nat.mod_mul, Nat.add_comm, Nat.mul_comm]
+
+theorem beNat_beBytes (n v : Nat) (h : v < 256 ^ n) : beNat (beBytes n v) = v := by
+  rw [beNat_beBytes_mod, Nat.mod_eq_of_lt h]
+
+theorem beNat_lt (a : Bytes) : beNat a < 256 ^ a.length := by
+  induction a with
+  | nil => simp [beNat]
+  | cons x xs ih =>
+    simp only [beNat, List.length_cons, Nat.pow_succ]
+    have hx : x.toNat < 256 := x.toNat_lt
+    have : x.toNat * 256 ^ xs.length + 256 ^ xs.length ≤ 256 * 256 ^ xs.length := by
+      have := Nat.mul_le_mul_right (256 ^ xs.length) (show x.toNat + 1 ≤ 256 from hx)
+      rw [Nat.add_mul, Nat.one_mul] at this
+      exact this
+    rw [Nat.mul_comm (256 ^ xs.length) 256]
+    omega
+
+theorem beBytes_add_mul (n d x r : Nat) : beBytes n (x * 256 ^ (n + d) + r) = beBytes n r := by
+  induction n generalizing d with
+  | zero => rfl
+  | succ n ih =>
+    simp only [beBytes]
+    congr 1
+    · congr 1
+      have : x * 256 ^ (n + 1 + d) = 256 ^ n * (x * 256 ^ d * 256) := by
+        rw [show n + 1 + d = n + (d + 1) by omega, Nat.pow_add, Nat.pow_succ]
+        simp only [Nat.mul_comm, Nat.mul_left_comm]
+      rw [this, Nat.mul_add_div (Nat.pow_pos (by decide)), Nat.add_comm, Nat.add_mul_mod_self_right]
+    · have := ih (d + 1)
+      rw [show n + (d + 1) = n + 1 + d by omega] at this
+      exact this
+
+theorem beBytes_beNat (a : Bytes) : beBytes a.length (beNat a) = a := by
+  induction a with
+  | nil => rfl
+  | cons x xs ih =>
+    have hlt := beNat_lt xs
+    simp only [beNat, List.length_cons, beBytes]
+    congr 1
+    · rw [Nat.mul_comm, Nat.mul_add_div (Nat.pow_pos (by decide)), Nat.div_eq_of_lt hlt,
+        Nat.add_zero, Nat.mod_eq_of_lt x.toNat_lt, UInt8.ofNat_toNat]
+    · have := beBytes_add_mul xs.length 0 x.toNat (beNat xs)
+      rw [Nat.add_zero] at this
+      rw [this]; exact ih
+
+/-! ### integers -/
+
+theorem short_newShort (v : Nat) (h : v < 2 ^ 16) : short (newShort v) = .ok v := by
+  simp [short, newShort, beBytes_length, beNat_beBytes 2 v h]
+
+theorem integer_newInteger (v : Nat) (h : v < 2 ^ 32) : integer (newInteger v) = .ok v := by
+  simp [integer, newInteger, beBytes_length, beNat_beBytes 4 v h]
+
+theorem integer64_newInteger64 (v : Nat) (h : v < 2 ^ 64) : integer64 (newInteger64 v) = .ok v := by
+  simp [integer64, newInteger64, beBytes_length, beNat_beBytes 8 v h]
+
+theorem short_enc_dec' (a : Bytes) (v : Nat) (h : short a = .ok v) : v < 2 ^ 16 ∧ newShort v = a := by
+  unfold short at h
+  split at h
+  · cases h
+  · rename_i hl
+    have hl : a.length = 2 := by omega
+    cases h
+    have h1 := beNat_lt a
+    have h2 := beBytes_beNat a
+    rw [hl] at h1 h2
+    exact ⟨h1, h2⟩
+
+theorem integer_enc_dec' (a : Bytes) (v : Nat) (h : integer a = .ok v) : v < 2 ^ 32 ∧ newInteger v = a := by
+  unfold integer at h
+  split at h
+  · cases h
+  · rename_i hl
+    have hl : a.length = 4 := by omega
+    cases h
+    have h1 := beNat_lt a
+    have h2 := beBytes_beNat a
+    rw [hl] at h1 h2
+    exact ⟨h1, h2⟩
+
+theorem integer64_enc_dec' (a : Bytes) (v : Nat) (h : integer64 a = .ok v) : v < 2 ^ 64 ∧ newInteger64 v = a := by
+  unfold integer64 at h
+  split at h
+  · cases h
+  · rename_i hl
+    have hl : a.length = 8 := by omega
+    cases h
+    have h1 := beNat_lt a
+    have h2 := beBytes_beNat a
+    rw [hl] at h1 h2
+    exact ⟨h1, h2⟩
+
+/-! ### addresses -/
+
+theorem ipaddr_roundtrip' (ip a : Bytes) (h : newIPAddr ip = .ok a) :
+    a.length = 4 ∧ ∃ d, ipAddr a = .ok d ∧ ipEqual d ip = true := by
+  unfold newIPAddr to4 at h
+  split at h
+  · rename_i b hb
+    cases h
+    split at hb
+    · rename_i h4
+      cases hb
+      refine ⟨h4, ip, by simp [ipAddr, h4], ?_⟩
+      simp [ipEqual, to16, h4]
+    · split at hb
+      · rename_i h16
+        cases hb
+        have hl : (ip.drop 12).length = 4 := by simp [h16.1]
+        refine ⟨hl, ip.drop 12, by simp [ipAddr, h16.1], ?_⟩
+        have : v4InV6Prefix ++ ip.drop 12 = ip := by
+          rw [← h16.2]; exact List.take_append_drop 12 ip
+        simp [ipEqual, to16, h16.1, this]
+      · cases hb
+  · cases h
+
+theorem ipv6addr_roundtrip' (ip a : Bytes) (h : newIPv6Addr ip = .ok a) :
+    a.length = 16 ∧ ∃ d, ipv6Addr a = .ok d ∧ ipEqual d ip = true := by
+  unfold newIPv6Addr to16 at h
+  split at h
+  · rename_i b hb
+    cases h
+    split at hb
+    · rename_i h4
+      cases hb
+      have hl : (v4InV6Prefix ++ ip).length = 16 := by simp [v4InV6Prefix, h4]
+      refine ⟨hl, v4InV6Prefix ++ ip, by simp [ipv6Addr, hl], ?_⟩
+      simp only [ipEqual, to16, hl, h4]
+      simp
+    · split at hb
+      · rename_i h16
+        cases hb
+        refine ⟨h16, ip, by simp [ipv6Addr, h16], ?_⟩
+        simp [ipEqual, to16, h16]
+      · cases hb
+  · cases h
+
+/-! ### date -/
+
+theorem date_roundtrip' (u : Int) (a : Bytes) (h : newDate u = .ok a) : a.length = 4 ∧ date a = .ok u := by
+  unfold newDate at h
+  split at h
+  · cases h
+  · split at h
+    · cases h
+    · cases h
+      rename_i h1 h2
+      have hm : u % 4294967296 = u := Int.emod_eq_of_lt (by omega) (by omega)
+      refine ⟨beBytes_length _ _, ?_⟩
+      simp only [date, beBytes_length]
+      rw [beNat_beBytes 4 _ (by rw [hm]; show u.toNat < 4294967296; omega), hm]
+      simp
+      omega
+
+/-! ### vendor-specific, TLV -/
+
+theorem vsa_roundtrip' (id : Nat) (v a : Bytes) (hid : id < 2 ^ 32) (h : newVendorSpecific id v = .ok a) :
+    a.length ≤ 253 ∧ vendorSpecific a = .ok (id, v) := by
+  unfold newVendorSpecific at h
+  split at h
+  · cases h
+  · split at h
+    · cases h
+    · cases h
+      have hl := beBytes_length 4 id
+      refine ⟨by simp [hl]; omega, ?_⟩
+      unfold vendorSpecific
+      rw [if_neg (by simp [hl]; omega)]
+      rw [List.take_left' hl, List.drop_left' hl, beNat_beBytes 4 id hid]
+
+theorem tlv_roundtrip' (t : UInt8) (v a : Bytes) (h : newTLV t v = .ok a) :
+    a.length ≤ 255 ∧ tlv a = .ok (t, v) := by
+  unfold newTLV at h
+  split at h
+  · cases h
+  · cases h
+    rename_i hv
+    have hb : (UInt8.ofNat (2 + v.length)).toNat = 2 + v.length := by
+      rw [UInt8.toNat_ofNat']; show (2 + v.length) % 256 = _; omega
+    refine ⟨by simp; omega, ?_⟩
+    unfold tlv
+    rw [if_neg (by simp; omega)]
+    simp
+
+/-! ### IPv6 prefix -/
+
+theorem ext_getD (l₁ l₂ : Bytes) (hl : l₁.length = l₂.length)
+    (h : ∀ i, i < l₁.length → l₁.getD i 0 = l₂.getD i 0) : l₁ = l₂ := by
+  apply List.ext_getElem hl
+  intro i h1 h2
+  rw [List.getElem_eq_getD (0 : UInt8), List.getElem_eq_getD (0 : UInt8)]
+  exact h i h1
+
+/-- byte `i` of the `n`-bit ones-then-zeros mask -/
+def maskByte (n i : Nat) : UInt8 :=
+  if (i + 1) * 8 ≤ n then 0xff
+  else if i * 8 ≥ n then 0
+  else UInt8.ofNat (256 - 2 ^ (8 - (n - i * 8)))
+
+theorem maskByte_shift (n i : Nat) : maskByte (n + 8) (i + 1) = maskByte n i := by
+  unfold maskByte
+  have e : n + 8 - (i + 1) * 8 = n - i * 8 := by omega
+  rw [e]
+  by_cases h1 : (i + 1) * 8 ≤ n
+  · rw [if_pos h1, if_pos (by omega)]
+  · rw [if_neg h1, if_neg (by omega)]
+    by_cases h2 : i * 8 ≥ n
+    · rw [if_pos h2, if_pos (by omega)]
+    · rw [if_neg h2, if_neg (by omega)]
+
+theorem byteOnes_spec (b : UInt8) (k : Nat) (h : byteOnes b = some k) :
+    k ≤ 8 ∧ b = maskByte k 0 := by
+  unfold byteOnes at h
+  have hb : b = UInt8.ofNat b.toNat := UInt8.ofNat_toNat.symm
+  split at h <;> rename_i e <;> first
+    | (cases h; rw [e] at hb; exact ⟨by decide, hb⟩)
+    | cases h
+
+theorem cidrMask_length (n : Nat) : (cidrMask n).length = 16 := by
+  simp [cidrMask]
+
+theorem cidrMask_getD (n i : Nat) (hi : i < 16) : (cidrMask n).getD i 0 = maskByte n i := by
+  unfold cidrMask maskByte
+  rw [List.getD_eq_getElem?_getD, List.getElem?_map, List.getElem?_range hi]
+  rfl
+
+theorem all_zero_getD (l : Bytes) (h : l.all (· == 0) = true) (i : Nat) : l.getD i 0 = 0 := by
+  rw [List.getD_eq_getElem?_getD]
+  cases hi : l[i]? with
+  | none => rfl
+  | some x =>
+    have hm := List.mem_of_getElem? hi
+    have := List.all_eq_true.mp h x hm
+    simpa using this
+
+theorem maskOnes_spec (mask : Bytes) : ∀ n, maskOnes mask = some n →
+    n ≤ mask.length * 8 ∧ ∀ i, i < mask.length → mask.getD i 0 = maskByte n i := by
+  induction mask with
+  | nil => intro n h; simp [maskOnes] at h; subst h; simp
+  | cons b rest ih =>
+    intro n h
+    unfold maskOnes at h
+    split at h
+    · rename_i hb
+      cases hr : maskOnes rest with
+      | none => rw [hr] at h; cases h
+      | some n' =>
+        rw [hr] at h
+        simp only [Option.map_some, Option.some.injEq] at h
+        subst h
+        obtain ⟨h1, h2⟩ := ih n' hr
+        refine ⟨by simp only [List.length_cons]; omega, ?_⟩
+        intro i hi
+        cases i with
+        | zero =>
+          simp only [List.getD_cons_zero, hb]
+          unfold maskByte
+          rw [if_pos (by omega)]
+        | succ j =>
+          simp only [List.getD_cons_succ]
+          rw [maskByte_shift]
+          exact h2 j (by simp only [List.length_cons] at hi; omega)
+    · split at h
+      · rename_i k hk
+        split at h
+        · rename_i hz
+          cases h
+          obtain ⟨h1, h2⟩ := byteOnes_spec b n hk
+          refine ⟨by simp only [List.length_cons]; omega, ?_⟩
+          intro i hi
+          cases i with
+          | zero => simpa using h2
+          | succ j =>
+            simp only [List.getD_cons_succ]
+            rw [all_zero_getD rest hz]
+            unfold maskByte
+            rw [if_neg (by omega), if_pos (by omega)]
+        · cases h
+      · cases h
+
+theorem maskOnes_eq_cidrMask (mask : Bytes) (n : Nat) (hl : mask.length = 16)
+    (h : maskOnes mask = some n) : n ≤ 128 ∧ mask = cidrMask n := by
+  obtain ⟨h1, h2⟩ := maskOnes_spec mask n h
+  refine ⟨by omega, ?_⟩
+  apply ext_getD
+  · rw [hl, cidrMask_length]
+  · intro i hi
+    rw [h2 i hi, cidrMask_getD n i (by omega)]
+
+/-- copy of `RV.C10.maskIP` (which lives in the Props file) -/
+def maskIP' (ip : Bytes) (n : Nat) : Bytes :=
+  (List.range ip.length).map fun i =>
+    if (i + 1) * 8 ≤ n then ip.getD i 0
+    else if i * 8 ≥ n then 0
+    else clearFrom (ip.getD i 0) (n - i * 8)
+
+theorem maskIP'_length (ip : Bytes) (n : Nat) : (maskIP' ip n).length = ip.length := by
+  simp [maskIP']
+
+theorem maskIP'_getD (ip : Bytes) (n i : Nat) (hi : i < ip.length) :
+    (maskIP' ip n).getD i 0 =
+      if (i + 1) * 8 ≤ n then ip.getD i 0
+      else if i * 8 ≥ n then 0
+      else clearFrom (ip.getD i 0) (n - i * 8) := by
+  unfold maskIP'
+  rw [List.getD_eq_getElem?_getD, List.getElem?_map, List.getElem?_range hi]
+  rfl
+
+theorem clearFrom_idem (b : UInt8) (k : Nat) : clearFrom (clearFrom b k) k = clearFrom b k := by
+  simp [clearFrom, UInt8.and_assoc]
+
+theorem hostBitsZero_maskIP' (ip : Bytes) (n : Nat) : hostBitsZero (maskIP' ip n) n = true := by
+  unfold hostBitsZero
+  rw [List.all_eq_true]
+  intro i hi
+  rw [List.mem_range] at hi
+  rw [maskIP'_length] at hi
+  simp only [maskIP'_getD ip n i hi]
+  by_cases h1 : (i + 1) * 8 ≤ n
+  · simp [h1]
+  · by_cases h2 : i * 8 ≥ n
+    · simp [h1, h2]
+    · simp [h1, h2, clearFrom_idem]
+
+/-- the body emitted by `newIPv6Prefix` -/
+def encBody (ip : Bytes) (ones : Nat) : Bytes :=
+  if ones % 8 ≠ 0 then
+    (ip.take ((ones + 7) / 8)).take ((ones + 7) / 8 - 1) ++
+      [clearFrom ((ip.take ((ones + 7) / 8)).getD ((ones + 7) / 8 - 1) 0) (ones % 8)]
+  else ip.take ((ones + 7) / 8)
+
+theorem newIPv6Prefix_ok (ip mask : Bytes) (n : Nat) (hip : ip.length = 16) (hm : mask.length = 16)
+    (hn : maskOnes mask = some n) :
+    newIPv6Prefix (some (ip, mask)) = .ok (0 :: UInt8.ofNat n :: encBody ip n) := by
+  simp [newIPv6Prefix, maskSize, hn, hip, hm, encBody]
+
+theorem encBody_length (ip : Bytes) (n : Nat) (hip : ip.length = 16) (hn : n ≤ 128) :
+    (encBody ip n).length = (n + 7) / 8 := by
+  unfold encBody
+  split
+  · simp [hip]; omega
+  · simp [hip]; omega
+
+theorem encBody_pad_getD (ip : Bytes) (n i : Nat) (hip : ip.length = 16) (hn : n ≤ 128) (hi : i < 16) :
+    (encBody ip n ++ zeros (16 - (n + 7) / 8)).getD i 0 = (maskIP' ip n).getD i 0 := by
+  rw [maskIP'_getD ip n i (by omega)]
+  rw [List.getD_eq_getElem?_getD, List.getElem?_append, encBody_length ip n hip hn]
+  unfold encBody zeros
+  by_cases h8 : n % 8 = 0
+  · simp only [h8, ne_eq, not_true_eq_false, if_false, List.getElem?_take, List.getElem?_replicate]
+    by_cases h1 : (i + 1) * 8 ≤ n
+    · rw [if_pos (by omega), if_pos (by omega), if_pos h1, List.getD_eq_getElem?_getD]
+    · rw [if_neg (by omega), if_neg h1, if_pos (by omega), if_pos (by omega)]; rfl
+  · simp only [h8, ne_eq, not_false_eq_true, if_true, List.getElem?_take, List.getElem?_replicate,
+      List.getElem?_append, List.length_take, hip]
+    by_cases h1 : (i + 1) * 8 ≤ n
+    · rw [if_pos (by omega), if_pos (by omega), if_pos (by omega), if_pos (by omega), if_pos h1,
+        List.getD_eq_getElem?_getD]
+    · rw [if_neg h1]
+      by_cases h2 : i * 8 ≥ n
+      · rw [if_neg (by omega), if_pos (by omega), if_pos h2]; rfl
+      · rw [if_pos (by omega), if_neg (by omega), if_neg h2]
+        have e1 : i - min ((n + 7) / 8 - 1) (min ((n + 7) / 8) 16) = 0 := by omega
+        have e2 : (n + 7) / 8 - 1 = i := by omega
+        have e3 : n % 8 = n - i * 8 := by omega
+        rw [e1, e2, e3]
+        simp only [List.getElem?_cons_zero, Option.getD_some, List.getD_eq_getElem?_getD,
+          List.getElem?_take]
+        rw [if_pos (by omega)]
+
+theorem encBody_pad_eq (ip : Bytes) (n : Nat) (hip : ip.length = 16) (hn : n ≤ 128) :
+    encBody ip n ++ zeros (16 - (n + 7) / 8) = maskIP' ip n := by
+  apply ext_getD
+  · rw [maskIP'_length, List.length_append, encBody_length ip n hip hn, hip]
+    simp [zeros]; omega
+  · intro i hi
+    rw [List.length_append, encBody_length ip n hip hn] at hi
+    simp only [zeros, List.length_replicate] at hi
+    exact encBody_pad_getD ip n i hip hn (by omega)
+
+theorem prefix_roundtrip' (ip mask a : Bytes) (n : Nat) (hn : maskOnes mask = some n)
+    (h : newIPv6Prefix (some (ip, mask)) = .ok a) :
+    a.length ≤ 18 ∧ ipv6Prefix a = .ok (maskIP' ip n, mask) := by
+  have hip : ip.length = 16 := by
+    unfold newIPv6Prefix at h
+    simp only at h
+    split at h
+    · cases h
+    · rename_i hh; simpa using hh
+  have hm : mask.length = 16 := by
+    unfold newIPv6Prefix at h
+    simp only [maskSize, hn, hip] at h
+    split at h
+    · cases h
+    · split at h
+      · cases h
+      · rename_i hh; omega
+  obtain ⟨hn128, hmask⟩ := maskOnes_eq_cidrMask mask n hm hn
+  rw [newIPv6Prefix_ok ip mask n hip hm hn] at h
+  cases h
+  have hl := encBody_length ip n hip hn128
+  have hpl : (UInt8.ofNat n).toNat = n := by
+    rw [UInt8.toNat_ofNat']; show n % 256 = n; omega
+  refine ⟨by simp only [List.length_cons, hl]; omega, ?_⟩
+  unfold ipv6Prefix
+  rw [if_neg (by simp only [List.length_cons, hl]; omega)]
+  simp only [List.getD_cons_succ, List.getD_cons_zero, hpl, List.drop_succ_cons, List.drop_zero,
+    List.length_cons, hl]
+  rw [if_neg (by omega)]
+  have e : (n + 7) / 8 + 1 + 1 - 2 = (n + 7) / 8 := by omega
+  rw [e, encBody_pad_eq ip n hip hn128, hostBitsZero_maskIP', ← hmask]
+  rfl
+
+theorem prefix_enc_ok_iff' (ip mask : Bytes) :
+    (∃ a, newIPv6Prefix (some (ip, mask)) = .ok a) ↔
+      (ip.length = 16 ∧ mask.length = 16 ∧ (maskOnes mask).isSome = true) := by
+  constructor
+  · rintro ⟨a, h⟩
+    unfold newIPv6Prefix at h
+    simp only at h
+    split at h
+    · cases h
+    · rename_i hip
+      cases hm : maskOnes mask with
+      | none => simp [maskSize, hm] at h
+      | some n =>
+        simp only [maskSize, hm] at h
+        split at h
+        · cases h
+        · rename_i hh
+          exact ⟨by omega, by omega, rfl⟩
+  · rintro ⟨hip, hm, hs⟩
+    cases hn : maskOnes mask with
+    | none => rw [hn] at hs; cases hs
+    | some n => exact ⟨_, newIPv6Prefix_ok ip mask n hip hm hn⟩
+
+theorem prefix_dec_ok_iff' (a : Bytes) :
+    (∃ r, ipv6Prefix a = .ok r) ↔
+      (2 ≤ a.length ∧ a.length ≤ 18 ∧ (a.getD 1 0).toNat ≤ 128 ∧
+       hostBitsZero (a.drop 2 ++ zeros (16 - (a.length - 2))) (a.getD 1 0).toNat = true) := by
+  unfold ipv6Prefix
+  simp only
+  by_cases h1 : a.length < 2 ∨ a.length > 18
+  · rw [if_pos h1]
+    constructor
+    · rintro ⟨r, h⟩; cases h
+    · intro h; omega
+  · rw [if_neg h1]
+    by_cases h2 : (a.getD 1 0).toNat > 128
+    · rw [if_pos h2]
+      constructor
+      · rintro ⟨r, h⟩; cases h
+      · intro h; omega
+    · rw [if_neg h2]
+      cases h3 : hostBitsZero (a.drop 2 ++ zeros (16 - (a.length - 2))) (a.getD 1 0).toNat with
+      | false => simp
+      | true =>
+        simp only [Bool.not_true, Bool.false_eq_true, if_false]
+        exact ⟨fun _ => ⟨by omega, by omega, by omega, trivial⟩, fun _ => ⟨_, rfl⟩⟩
+
+theorem never_faults' (a : Bytes) :
+    short a ≠ .fault ∧ integer a ≠ .fault ∧ integer64 a ≠ .fault ∧ ipAddr a ≠ .fault ∧ ipv6Addr a ≠ .fault ∧
+    ifid a ≠ .fault ∧ date a ≠ .fault ∧ vendorSpecific a ≠ .fault ∧ tlv a ≠ .fault ∧ ipv6Prefix a ≠ .fault := by
+  refine ⟨?_, ?_, ?_, ?_, ?_, ?_, ?_, ?_, ?_, ?_⟩
+  · unfold short; split <;> simp
+  · unfold integer; split <;> simp
+  · unfold integer64; split <;> simp
+  · unfold ipAddr; split <;> simp
+  · unfold ipv6Addr; split <;> simp
+  · unfold ifid; split <;> simp
+  · unfold date; split <;> simp
+  · unfold vendorSpecific; split <;> simp
+  · unfold tlv; split <;> simp
+  · unfold ipv6Prefix
+    simp only
+    repeat' split
+    all_goals simp
+
 end RV
